@@ -657,6 +657,33 @@ def _check_reported_scores(ctx, p, pred):
             ctx.holds(rule, "prefix-scores", e.loc(), "the reported prefix scores are the driver's optimal costs, unmodified from entry min_segment_length - 1 on", found=valkey(v)[:80])
 
 
+def _check_transform_scores(ctx, cls):
+    """the prefix scores are also what transform_scores hands out: the `scores` series predict stored, as it is"""
+    rule = "C02.f BACKTRACK"
+    from .common import return_exprs
+
+    f = ctx.P.lookup_method(cls, "_transform_scores")
+    if f is None or f.cls is None or f.cls.name != cls.name:
+        ctx.undecided(rule, "published-scores", cls.module.relpath, "PELT._transform_scores not found (anchor vanished)")
+        return
+    me = f.params[0] if f.params else "self"
+    changing = {"cummax", "cummin", "cumsum", "cumprod", "clip", "abs", "round", "diff", "shift", "rolling", "fillna", "ffill", "bfill", "sort_values", "rank", "pct_change", "expanding", "ewm", "where", "mask", "add", "sub", "mul", "div", "iloc", "loc", "head", "tail", "drop", "dropna"}
+    for r in return_exprs(f):
+        e = r
+        while isinstance(e, ast.Call) and isinstance(e.func, ast.Attribute) and e.func.attr in ("copy", "rename") and not (e.func.attr == "rename" and not e.args and not e.keywords):
+            e = e.func.value  # a copy / a renamed copy of the series holds the same values
+        if isinstance(e, ast.Attribute) and isinstance(e.value, ast.Name) and e.value.id == me and e.attr == "scores":
+            ctx.holds(rule, "published-scores", f.loc(r), "transform_scores returns the prefix scores predict stored, unmodified")
+            continue
+        txt = norm_src(r)
+        inner = [n for n in ast.walk(r) if isinstance(n, ast.Attribute) and isinstance(n.value, ast.Name) and n.value.id == me and n.attr == "scores"]
+        altered = any(isinstance(n, ast.Call) and isinstance(n.func, ast.Attribute) and n.func.attr in changing for n in ast.walk(r)) or any(isinstance(n, (ast.BinOp, ast.Subscript, ast.UnaryOp)) for n in ast.walk(r))
+        if inner and altered:
+            ctx.violation(rule, "published-scores", f.loc(r), "transform_scores does not hand out the prefix scores as predict stored them: the reported score of a prefix is no longer its optimal penalised cost (the optimal cost is not monotone in the prefix when min_segment_length > 1 or costs are negative)", found=txt[:100], expected="return self.scores")
+        else:
+            ctx.undecided(rule, "published-scores", f.loc(r), "what transform_scores returns is not recognised as the stored prefix scores", found=txt[:100])
+
+
 def check_predict_wiring(ctx, cls, pred, call, drv):
     """the driver's changepoints reach the formatter unmodified"""
     rule = "C02.f BACKTRACK"
@@ -691,6 +718,7 @@ def check_predict_wiring(ctx, cls, pred, call, drv):
                 ok = True
         ctx.check(ok, rule, "wiring", pred.loc(), "the changepoints returned by the driver are passed to the formatter unmodified", found=found, expected="driver output #1")
         _check_reported_scores(ctx, p, pred)
+        _check_transform_scores(ctx, cls)
         # argument binding at the call site: penalty_ and min_segment_length
         calls = [e for e in p.events if e.kind == "driver_call"]
         if calls:
